@@ -26,7 +26,7 @@ def jobs(tier):
             base = max(lo, 0) if lo <= 0 <= hi else lo
             if nm == "size":
                 base = min(hi, 2)
-            shrink[nm] = (base, min(hi, base + (1 if (not q or nm == "i") else 0)))
+            shrink[nm] = (base, min(hi, base + (0 if q else 1)))
         for op1 in range(n):
             if q:
                 out.extend(tjobs(f"{H}:c11_history", t, tier, shrink=shrink, fixed={"native": True, "op1": op1, "op3": -1},
